@@ -13,17 +13,19 @@ import (
 
 // TreeEntry describes one entry to materialise. Paths are relative, '/'-separated.
 type TreeEntry struct {
-	Path  string
-	Type  string // dir file symlink fifo chr blk hardlink sock
-	Mode  uint32 // unix permission bits incl. 04000/02000/01000
-	UID   int
-	GID   int
-	Mtime int64 // ns
-	Data  []byte
-	Link  string // symlink target, or hard-link source path (relative to the tree root)
-	Maj   uint32
-	Min   uint32
-	Xattr [][2]string
+	Path    string
+	Type    string // dir file symlink fifo chr blk hardlink sock
+	Mode    uint32 // unix permission bits incl. 04000/02000/01000
+	UID     int
+	GID     int
+	Mtime   int64 // ns
+	Data    []byte
+	Hole    int
+	OpenErr bool
+	Link    string // symlink target, or hard-link source path (relative to the tree root)
+	Maj     uint32
+	Min     uint32
+	Xattr   [][2]string
 }
 
 func treeFromJSON(xs []interface{}) []TreeEntry {
@@ -37,6 +39,11 @@ func treeFromJSON(xs []interface{}) []TreeEntry {
 		} else if n := m.num("size"); n > 0 {
 			e.Data = patternData(e.Path, n)
 		}
+		// "hole": the file ends in that many bytes that were never written (a sparse tail); an in-memory source sees them as zeros
+		e.Hole = m.num("hole")
+		// "openerr": (in-memory sources) a regular entry of size 0 whose Open fails with ENXIO - what a unix socket in a real tree is
+		// to the sender (announced as a regular file, cannot be opened)
+		e.OpenErr = m.boolean("openerr")
 		for _, kv := range m.arr("x") {
 			a := kv.([]interface{})
 			e.Xattr = append(e.Xattr, [2]string{unhex(a[0].(string)), unhex(a[1].(string))})
@@ -71,6 +78,11 @@ func mktree(root string, ents []TreeEntry) error {
 		case "file":
 			if err := os.WriteFile(p, e.Data, 0600); err != nil {
 				return err
+			}
+			if e.Hole > 0 {
+				if err := os.Truncate(p, int64(len(e.Data)+e.Hole)); err != nil {
+					return err
+				}
 			}
 		case "symlink":
 			if err := os.Symlink(e.Link, p); err != nil {
